@@ -601,3 +601,426 @@ impl Slot {
         self.req_len
     }
 }
+
+// ---------------------------------------------------------------------------
+// the entry as a submission queue entry, through the rusl constructors
+
+impl Slot {
+    pub fn to_sqe(&mut self, w: &World, link: bool) -> Sqe {
+        let lf = if link { IoUringSQEFlags::IOSQE_IO_LINK } else { IoUringSQEFlags::empty() };
+        let ud = self.ud;
+        let dfd = Some(fd_of(w.dfd));
+        let pos = self.pos;
+        let v = self.v();
+        unsafe {
+            match self.op() {
+                Op::Readv => Sqe::new_readv(fd_of(self.a), self.iov.as_ptr() as usize, self.iov.len() as u32, ud, lf),
+                Op::Writev => Sqe::new_writev(fd_of(self.a), self.iov.as_ptr() as usize, self.iov.len() as u32, ud, lf),
+                Op::ReadFixed => {
+                    let f = self.fixed.expect("fixed area");
+                    let (fd, fl) = if v == 1 { (fd_of(0), lf | IoUringSQEFlags::IOSQE_FIXED_FILE) } else { (fd_of(self.a), lf) };
+                    Sqe::new_readv_fixed(fd, pos as u16, f.slot(pos) as u64, self.req_len as u32, ud, fl)
+                }
+                Op::WriteFixed => {
+                    let f = self.fixed.expect("fixed area");
+                    Sqe::new_writev_fixed(fd_of(self.a), (8 + pos) as u16, f.slot(8 + pos) as u64, self.req_len as u32, ud, lf)
+                }
+                Op::Openat => {
+                    let p = self.p1.as_ref().unwrap();
+                    match v {
+                        0 => Sqe::new_openat(dfd, p, OpenFlags::O_RDONLY | OpenFlags::O_CLOEXEC, Mode::empty(), ud, lf),
+                        1 => Sqe::new_openat(dfd, p, OpenFlags::O_CREAT | OpenFlags::O_EXCL | OpenFlags::O_WRONLY, mode(0o640), ud, lf),
+                        _ => Sqe::new_openat(None, p, OpenFlags::O_RDONLY, Mode::empty(), ud, lf),
+                    }
+                }
+                Op::Close => Sqe::new_close(fd_of(self.a), ud, lf),
+                Op::Statx => {
+                    let p = self.p1.as_ref().unwrap();
+                    let buf = self.stx.as_mut_ptr() as *mut rusl::platform::Statx;
+                    if v == 0 {
+                        Sqe::new_statx(dfd, p, StatxFlags::empty(), StatxMask::STATX_BASIC_STATS, buf, ud, lf)
+                    } else {
+                        Sqe::new_statx(None, p, StatxFlags::empty(), StatxMask::STATX_SIZE, buf, ud, lf)
+                    }
+                }
+                Op::Mkdirat => {
+                    let p = self.p1.as_ref().unwrap();
+                    if v == 0 {
+                        Sqe::new_mkdirat(dfd, p, mode(0o750), ud, lf)
+                    } else {
+                        Sqe::new_mkdirat(None, p, mode(0o755), ud, lf)
+                    }
+                }
+                Op::Unlinkat => {
+                    let p = self.p1.as_ref().unwrap();
+                    match v {
+                        0 => Sqe::new_unlink_at(dfd, p, false, ud, lf),
+                        1 => Sqe::new_unlink_at(dfd, p, true, ud, lf),
+                        _ => Sqe::new_unlink_at(None, p, false, ud, lf),
+                    }
+                }
+                Op::Renameat => {
+                    let a = self.p1.as_ref().unwrap();
+                    let b = self.p2.as_ref().unwrap();
+                    match v {
+                        0 => Sqe::new_rename_at(dfd, dfd, a, b, RenameFlags::empty(), ud, lf),
+                        1 => Sqe::new_rename_at(dfd, None, a, b, RenameFlags::RENAME_NOREPLACE, ud, lf),
+                        _ => Sqe::new_rename_at(None, None, a, b, RenameFlags::empty(), ud, lf),
+                    }
+                }
+                Op::Socket => match v {
+                    0 => Sqe::new_socket(AddressFamily::AF_UNIX, SocketOptions::new(SocketType::SOCK_STREAM, SocketFlags::SOCK_CLOEXEC), 0, ud, lf),
+                    1 => Sqe::new_socket(AddressFamily::AF_INET, SocketOptions::new(SocketType::SOCK_DGRAM, SocketFlags::empty()), 17, ud, lf),
+                    _ => Sqe::new_socket(AddressFamily::AF_INET, SocketOptions::new(SocketType::SOCK_STREAM, SocketFlags::empty()), 17, ud, lf),
+                },
+                Op::Connect => Sqe::new_connect_unix(fd_of(self.a), self.sockarg.as_ref().unwrap(), ud, lf),
+                Op::Accept => Sqe::new_accept_unix(fd_of(self.a), std::ptr::null_mut(), std::ptr::null_mut(), SocketFlags::SOCK_CLOEXEC, ud, lf),
+                Op::Sendmsg => {
+                    // the borrowed slices live in this Slot (heap), which outlives the completion
+                    let pl: &'static [u8] = std::slice::from_raw_parts(self.payload.as_ptr(), self.payload.len());
+                    self.ios = vec![IoSlice::new(pl)];
+                    let ios: &'static [IoSlice<'static>] = std::slice::from_raw_parts(self.ios.as_ptr(), 1);
+                    let ctl = if v == 1 {
+                        let fds: &'static [Fd] = std::slice::from_raw_parts(self.pass.as_ptr(), self.pass.len());
+                        Some(ControlMessageSend::ScmRights(fds))
+                    } else {
+                        None
+                    };
+                    self.guard = Some(Box::new(MsgHdrBorrow::create_send(None, ios, ctl)));
+                    Sqe::new_sendmsg(fd_of(self.a), self.guard.as_ref().unwrap(), 0, ud, lf)
+                }
+                Op::Recvmsg => {
+                    let b: &'static mut [u8] = std::slice::from_raw_parts_mut(self.buf.as_mut_ptr(), self.buf.len());
+                    self.riov = vec![IoSliceMut::new(b)];
+                    let riov: &'static mut [IoSliceMut<'static>] = std::slice::from_raw_parts_mut(self.riov.as_mut_ptr(), 1);
+                    let ctrl: &'static mut [u8] = std::slice::from_raw_parts_mut(self.ctrl.as_mut_ptr(), self.ctrl.len());
+                    self.rhdr = Some(Box::new(MsgHdrBorrow::create_recv(riov, Some(ctrl))));
+                    let hp = &mut **self.rhdr.as_mut().unwrap() as *mut MsgHdrBorrow<'static>;
+                    Sqe::new_recvmsg(fd_of(self.a), hp.cast(), 0, ud, lf)
+                }
+                Op::Timeout => Sqe::new_timeout(&self.ts, v == 0, None, ud, lf),
+                Op::PollAdd => {
+                    let ev = if v == 1 { PollEvents::POLLIN | PollEvents::POLLOUT } else { PollEvents::POLLIN };
+                    Sqe::new_poll_add(fd_of(self.a), ev, PollAddMultiFlags::empty(), ud, lf)
+                }
+            }
+        }
+    }
+
+    // -----------------------------------------------------------------------
+    // the equivalent direct system call (libc), raw kernel result
+
+    pub fn direct(&mut self, w: &World, reg_fd: i32) -> i64 {
+        let v = self.v();
+        let p1 = self.c1.as_ptr();
+        let p2 = self.c2.as_ptr();
+        unsafe {
+            match self.op() {
+                Op::Readv => rk(libc::preadv(self.a, self.iov.as_ptr(), self.iov.len() as i32, 0) as i64),
+                Op::Writev => rk(libc::pwritev(self.a, self.iov.as_ptr(), self.iov.len() as i32, 0) as i64),
+                Op::ReadFixed => {
+                    let fd = if v == 1 { reg_fd } else { self.a };
+                    rk(libc::pread(fd, self.buf.as_mut_ptr() as *mut _, self.req_len, 0) as i64)
+                }
+                Op::WriteFixed => rk(libc::pwrite(self.a, self.payload.as_ptr() as *const _, self.req_len, 0) as i64),
+                Op::Openat => match v {
+                    0 => rk(libc::openat(w.dfd, p1, libc::O_RDONLY | libc::O_CLOEXEC, 0) as i64),
+                    1 => rk(libc::openat(w.dfd, p1, libc::O_CREAT | libc::O_EXCL | libc::O_WRONLY, 0o640) as i64),
+                    _ => rk(libc::openat(libc::AT_FDCWD, p1, libc::O_RDONLY, 0) as i64),
+                },
+                Op::Close => rk(libc::close(self.a) as i64),
+                Op::Statx => {
+                    let buf = self.stx.as_mut_ptr() as *mut libc::statx;
+                    if v == 0 {
+                        rk(libc::statx(w.dfd, p1, 0, libc::STATX_BASIC_STATS, buf) as i64)
+                    } else {
+                        rk(libc::statx(libc::AT_FDCWD, p1, 0, libc::STATX_SIZE, buf) as i64)
+                    }
+                }
+                Op::Mkdirat => {
+                    if v == 0 {
+                        rk(libc::mkdirat(w.dfd, p1, 0o750) as i64)
+                    } else {
+                        rk(libc::mkdirat(libc::AT_FDCWD, p1, 0o755) as i64)
+                    }
+                }
+                Op::Unlinkat => match v {
+                    0 => rk(libc::unlinkat(w.dfd, p1, 0) as i64),
+                    1 => rk(libc::unlinkat(w.dfd, p1, libc::AT_REMOVEDIR) as i64),
+                    _ => rk(libc::unlinkat(libc::AT_FDCWD, p1, 0) as i64),
+                },
+                Op::Renameat => match v {
+                    0 => rk(libc::renameat2(w.dfd, p1, w.dfd, p2, 0) as i64),
+                    1 => rk(libc::renameat2(w.dfd, p1, libc::AT_FDCWD, p2, libc::RENAME_NOREPLACE) as i64),
+                    _ => rk(libc::renameat2(libc::AT_FDCWD, p1, libc::AT_FDCWD, p2, 0) as i64),
+                },
+                Op::Socket => match v {
+                    0 => rk(libc::socket(libc::AF_UNIX, libc::SOCK_STREAM | libc::SOCK_CLOEXEC, 0) as i64),
+                    1 => rk(libc::socket(libc::AF_INET, libc::SOCK_DGRAM, 17) as i64),
+                    _ => rk(libc::socket(libc::AF_INET, libc::SOCK_STREAM, 17) as i64),
+                },
+                Op::Connect => rk(libc::connect(self.a, &*self.sun as *const _ as *const libc::sockaddr, self.sun_len) as i64),
+                Op::Accept => rk(libc::accept4(self.a, std::ptr::null_mut(), std::ptr::null_mut(), libc::SOCK_CLOEXEC) as i64),
+                Op::Sendmsg => {
+                    let mut iov = libc::iovec { iov_base: self.payload.as_mut_ptr() as *mut _, iov_len: self.payload.len() };
+                    let mut mh: libc::msghdr = std::mem::zeroed();
+                    mh.msg_iov = &mut iov;
+                    mh.msg_iovlen = 1;
+                    let mut cbuf = [0u64; 4];
+                    if v == 1 {
+                        mh.msg_control = cbuf.as_mut_ptr() as *mut _;
+                        mh.msg_controllen = libc::CMSG_SPACE(4) as usize;
+                        let c = libc::CMSG_FIRSTHDR(&mh);
+                        (*c).cmsg_level = libc::SOL_SOCKET;
+                        (*c).cmsg_type = libc::SCM_RIGHTS;
+                        (*c).cmsg_len = libc::CMSG_LEN(4) as usize;
+                        *(libc::CMSG_DATA(c) as *mut i32) = self.pass[0].value();
+                    }
+                    rk(libc::sendmsg(self.a, &mh, 0) as i64)
+                }
+                Op::Recvmsg => {
+                    let mut iov = libc::iovec { iov_base: self.buf.as_mut_ptr() as *mut _, iov_len: self.buf.len() };
+                    let mut mh: libc::msghdr = std::mem::zeroed();
+                    mh.msg_iov = &mut iov;
+                    mh.msg_iovlen = 1;
+                    mh.msg_control = self.ctrl.as_mut_ptr() as *mut _;
+                    mh.msg_controllen = self.ctrl.len();
+                    rk(libc::recvmsg(self.a, &mut mh, 0) as i64)
+                }
+                Op::Timeout => {
+                    // no direct call returns -ETIME; the equivalent is a sleep of the same length, after
+                    // which io_uring reports -ETIME by definition of IORING_OP_TIMEOUT
+                    let ts = libc::timespec { tv_sec: self.ts.seconds(), tv_nsec: self.ts.nanoseconds() };
+                    let fl = if v == 0 { 0 } else { libc::TIMER_ABSTIME };
+                    let r = libc::clock_nanosleep(libc::CLOCK_MONOTONIC, fl, &ts, std::ptr::null_mut());
+                    if r == 0 {
+                        -(libc::ETIME as i64)
+                    } else {
+                        -(r as i64)
+                    }
+                }
+                Op::PollAdd => {
+                    let ev = if v == 1 { libc::POLLIN | libc::POLLOUT } else { libc::POLLIN };
+                    let mut pf = libc::pollfd { fd: self.a, events: ev, revents: 0 };
+                    let r = libc::poll(&mut pf, 1, 0);
+                    if r < 0 {
+                        rk(r as i64)
+                    } else if pf.revents & libc::POLLNVAL != 0 {
+                        // poll(2) reports a closed descriptor as POLLNVAL, io_uring as -EBADF: same fact
+                        -(libc::EBADF as i64)
+                    } else {
+                        pf.revents as i64
+                    }
+                }
+            }
+        }
+    }
+}
+
+// ---------------------------------------------------------------------------
+// observation of the side effects of one entry (canonical, world-independent text)
+
+unsafe fn ino_of_fd(fd: i32) -> Option<(u64, u64)> {
+    let mut st: libc::stat = std::mem::zeroed();
+    if libc::fstat(fd, &mut st) == 0 {
+        Some((st.st_dev as u64, st.st_ino as u64))
+    } else {
+        None
+    }
+}
+unsafe fn ino_of_path(dfd: i32, p: *const libc::c_char) -> Option<(u64, u64)> {
+    let mut st: libc::stat = std::mem::zeroed();
+    if libc::fstatat(dfd, p, &mut st, 0) == 0 {
+        Some((st.st_dev as u64, st.st_ino as u64))
+    } else {
+        None
+    }
+}
+unsafe fn file_content(fd: i32) -> String {
+    let mut b = [0u8; 256];
+    let n = libc::pread(fd, b.as_mut_ptr() as *mut _, b.len(), 0);
+    if n < 0 {
+        format!("unreadable(errno {})", errno())
+    } else {
+        common::show_bytes(&b[..n as usize])
+    }
+}
+unsafe fn sockopt(fd: i32, opt: i32) -> i32 {
+    let mut v: i32 = -1;
+    let mut l: libc::socklen_t = 4;
+    libc::getsockopt(fd, libc::SOL_SOCKET, opt, &mut v as *mut _ as *mut _, &mut l);
+    v
+}
+/// one byte written into `from` arrives at `to`
+unsafe fn byte_through(from: i32, to: i32) -> bool {
+    if libc::send(from, b"Z".as_ptr() as *const _, 1, libc::MSG_DONTWAIT | libc::MSG_NOSIGNAL) != 1 {
+        return false;
+    }
+    let mut pf = libc::pollfd { fd: to, events: libc::POLLIN, revents: 0 };
+    libc::poll(&mut pf, 1, 200);
+    let mut b = [0u8; 1];
+    libc::recv(to, b.as_mut_ptr() as *mut _, 1, libc::MSG_DONTWAIT) == 1 && b[0] == b'Z'
+}
+
+impl Slot {
+    /// `res`: the result reported for this entry (completion in the wrapper world, return value in the
+    /// reference world; -ECANCELED for a cancelled chain member).  Also releases what the operation created.
+    pub fn observe(&mut self, w: &World, res: i64) -> String {
+        let v = self.v();
+        unsafe {
+            match self.op() {
+                Op::Readv | Op::Recvmsg => {
+                    let n = res.clamp(0, self.buf.len() as i64) as usize;
+                    let tail_intact = self.buf[n..].iter().all(|&b| b == FILL);
+                    format!("data[{}] rest-untouched:{tail_intact}", common::show_bytes(&self.buf[..n]))
+                }
+                Op::ReadFixed => {
+                    let n = res.clamp(0, FIXED_SLOT as i64) as usize;
+                    let mem: &[u8] = match self.fixed {
+                        Some(f) => std::slice::from_raw_parts(f.slot(self.pos), FIXED_SLOT),
+                        None => &self.buf,
+                    };
+                    let tail_intact = mem[n..].iter().all(|&b| b == FILL);
+                    format!("data[{}] rest-untouched:{tail_intact}", common::show_bytes(&mem[..n]))
+                }
+                Op::Writev | Op::WriteFixed => {
+                    if v == 0 {
+                        format!("file[{}]", file_content(self.a))
+                    } else {
+                        String::new()
+                    }
+                }
+                Op::Openat => {
+                    if res < 0 {
+                        return String::new();
+                    }
+                    let fd = res as i32;
+                    let want = if v == 0 || v == 1 { ino_of_path(w.dfd, self.c1.as_ptr()) } else { None };
+                    let same = want.is_some() && ino_of_fd(fd) == want;
+                    let fl = libc::fcntl(fd, libc::F_GETFL) & (libc::O_ACCMODE | libc::O_APPEND | libc::O_NONBLOCK | libc::O_PATH | libc::O_DIRECTORY);
+                    let cx = libc::fcntl(fd, libc::F_GETFD);
+                    libc::close(fd);
+                    format!("fd same-file:{same} fl:{fl:o} cloexec:{cx}")
+                }
+                Op::Close => {
+                    if v != 0 {
+                        return String::new();
+                    }
+                    // the descriptor was the only write end of a pipe: closed <=> the read end reports hang-up
+                    let mut pf = libc::pollfd { fd: self.b, events: libc::POLLIN, revents: 0 };
+                    libc::poll(&mut pf, 1, if res == 0 { 200 } else { 0 });
+                    let closed = pf.revents & libc::POLLHUP != 0;
+                    if !closed {
+                        self.close_after.push(self.a);
+                    }
+                    format!("write-end-closed:{closed}")
+                }
+                Op::Statx => {
+                    if res != 0 {
+                        return String::new();
+                    }
+                    let s = &*(self.stx.as_ptr() as *const libc::statx);
+                    let same = if v == 0 {
+                        let mut d: libc::statx = std::mem::zeroed();
+                        libc::statx(w.dfd, self.c1.as_ptr(), 0, libc::STATX_BASIC_STATS, &mut d);
+                        d.stx_ino == s.stx_ino && d.stx_dev_major == s.stx_dev_major && d.stx_dev_minor == s.stx_dev_minor && d.stx_mtime.tv_sec == s.stx_mtime.tv_sec
+                    } else {
+                        false
+                    };
+                    format!(
+                        "mask:{:x} mode:{:o} size:{} nlink:{} uid:{} gid:{} same-inode:{same}",
+                        s.stx_mask & 0x7ff,
+                        s.stx_mode,
+                        s.stx_size,
+                        s.stx_nlink,
+                        s.stx_uid,
+                        s.stx_gid
+                    )
+                }
+                Op::Mkdirat | Op::Unlinkat | Op::Renameat | Op::Timeout | Op::PollAdd => String::new(),
+                Op::Socket => {
+                    if res < 0 {
+                        return String::new();
+                    }
+                    let fd = res as i32;
+                    let s = format!(
+                        "sock dom:{} type:{} proto:{} cloexec:{}",
+                        sockopt(fd, libc::SO_DOMAIN),
+                        sockopt(fd, libc::SO_TYPE),
+                        sockopt(fd, libc::SO_PROTOCOL),
+                        libc::fcntl(fd, libc::F_GETFD)
+                    );
+                    libc::close(fd);
+                    s
+                }
+                Op::Connect => {
+                    if v != 0 {
+                        return String::new();
+                    }
+                    let mut pf = libc::pollfd { fd: self.b, events: libc::POLLIN, revents: 0 };
+                    libc::poll(&mut pf, 1, 0);
+                    if pf.revents & libc::POLLIN == 0 {
+                        return "connection-pending:false".into();
+                    }
+                    let acc = libc::accept4(self.b, std::ptr::null_mut(), std::ptr::null_mut(), libc::SOCK_CLOEXEC);
+                    let ok = acc >= 0 && byte_through(self.a, acc);
+                    if acc >= 0 {
+                        libc::close(acc);
+                    }
+                    format!("connection-pending:true data-flows:{ok}")
+                }
+                Op::Accept => {
+                    if res < 0 || v != 0 {
+                        return String::new();
+                    }
+                    let fd = res as i32;
+                    let ok = byte_through(self.b, fd);
+                    let cx = libc::fcntl(fd, libc::F_GETFD);
+                    let nb = libc::fcntl(fd, libc::F_GETFL) & libc::O_NONBLOCK;
+                    libc::close(fd);
+                    format!("accepted data-flows:{ok} cloexec:{cx} nonblock:{nb}")
+                }
+                Op::Sendmsg => {
+                    if v == 2 {
+                        return String::new();
+                    }
+                    let mut b = [0u8; 64];
+                    let mut iov = libc::iovec { iov_base: b.as_mut_ptr() as *mut _, iov_len: b.len() };
+                    let mut cbuf = [0u64; 8];
+                    let mut mh: libc::msghdr = std::mem::zeroed();
+                    mh.msg_iov = &mut iov;
+                    mh.msg_iovlen = 1;
+                    mh.msg_control = cbuf.as_mut_ptr() as *mut _;
+                    mh.msg_controllen = 64;
+                    let n = libc::recvmsg(self.b, &mut mh, libc::MSG_DONTWAIT | libc::MSG_CMSG_CLOEXEC);
+                    if n < 0 {
+                        return format!("peer-received:nothing({})", errname(-(errno() as i64)));
+                    }
+                    let mut fdinfo = "no-fd".to_string();
+                    let c = libc::CMSG_FIRSTHDR(&mh);
+                    if !c.is_null() && (*c).cmsg_level == libc::SOL_SOCKET && (*c).cmsg_type == libc::SCM_RIGHTS {
+                        let nfd = ((*c).cmsg_len - libc::CMSG_LEN(0) as usize) / 4;
+                        let got = *(libc::CMSG_DATA(c) as *const i32);
+                        let same = ino_of_fd(got) == ino_of_fd(w.fd_data);
+                        for i in 0..nfd {
+                            libc::close(*(libc::CMSG_DATA(c) as *const i32).add(i));
+                        }
+                        fdinfo = format!("fds:{nfd} same-file:{same}");
+                    }
+                    format!("peer-received[{}] {fdinfo}", common::show_bytes(&b[..n as usize]))
+                }
+            }
+        }
+    }
+
+    pub fn cleanup(self) {
+        unsafe {
+            for fd in &self.close_after {
+                libc::close(*fd);
+            }
+        }
+        for p in &self.unlink_after {
+            let _ = std::fs::remove_file(p);
+        }
+    }
+}
